@@ -190,9 +190,9 @@ pub fn run(args: &Args) {
     let t = args.tier_thorough;
     let (dense_max, struct_max, struct_count, basis_max) = match (prop.as_str(), t) {
         ("C14", false) => (768, 8192, 40, 96),
-        ("C14", true) => (4096, 16384, 200, 256),
+        ("C14", true) => (2048, 16384, 150, 192),
         (_, false) => (512, 8192, 40, 96),
-        (_, true) => (4096, 16384, 200, 256),
+        (_, true) => (2048, 16384, 150, 192),
     };
     let dense_max = args.get_usize("dense-max").unwrap_or(dense_max);
     let struct_count = args.get_usize("struct-count").unwrap_or(struct_count);
